@@ -1007,7 +1007,6 @@ func (s *stepper) Step(i int, st replay.Step) (replay.Obs, error) {
 	if s.stream != nil {
 		fin = s.stream.Finished()
 	}
-	obs["m_fin"] = fin
 	note := strings.Join(s.rt.notes, "; ")
 	if err != nil {
 		e := err.Error()
@@ -1016,7 +1015,7 @@ func (s *stepper) Step(i int, st replay.Step) (replay.Obs, error) {
 		}
 		note += " err=" + e
 	}
-	note += fmt.Sprintf(" [meta=%v logs=%v hdr=%v level=%d prefix=%q limits=%d/%d]", s.meta, s.logs, s.hdr, s.level, s.prefix, s.maxEnc, s.maxDec)
+	note += fmt.Sprintf(" [finished=%v meta=%v logs=%v hdr=%v level=%d prefix=%q limits=%d/%d]", fin, s.meta, s.logs, s.hdr, s.level, s.prefix, s.maxEnc, s.maxDec)
 	obs["__note__"] = note
 	return obs, nil
 }
